@@ -1,6 +1,7 @@
 """C12 Mailbox = bounded, lossless MPSC FIFO without lost wake-ups — structural clauses a..e."""
 from ..core import Site, TERM, norm, origin_calls, origin_proj_names, last_seg, Cond, origin_contains
 from . import common as K
+from ..masks import const_eval_set
 from .. import atomics
 
 EXPLANATION = (
@@ -347,6 +348,35 @@ def rule_b(ctx):
                  and any(y[0] == "const" and y[1] == 1 for y in (x.data[1] | x.data[2]))]
             ok = bool(c)
         ctx.ob("last-sender-closes", ok, "the sender whose decrement observes count 1 closes the queue and wakes the receiver", cl + ns + sub)
+        okd = len(sub) == 1 and const_eval_set(sd.origins(sub[0].args()[1], sub[0])) == 1 and not sd.conditions(sub[0])
+        ctx.ob("sender-count|drop-subtracts-one", okd, "dropping a sender subtracts exactly one from the sender count, unconditionally", sub)
+    # the count is the number of live senders: it starts at zero and every site that makes a Sender adds exactly one
+    inits = []
+    for b in P.all_bodies():
+        if "::tests" in b.name or not b.name.startswith("channel::"):
+            continue
+        for a in b.aggregates(adt="channel::Inner"):
+            fo = dict(zip(a.node["r"]["fields"], a.node["r"]["ops"]))
+            if "sender_count" not in fo:
+                continue
+            o = b.origins(fo["sender_count"], a)
+            good = len(o) == 1 and next(iter(o))[0] == "call" and next(iter(o))[2].endswith("Atomic::new")
+            if good:
+                ns_ = Site(b, next(iter(o))[1], TERM)
+                good = const_eval_set(b.origins(ns_.args()[0], ns_)) == 0
+            inits.append(a)
+            ctx.ob("sender-count|starts-at-zero|%s" % b.name, good, "a new channel has no sender: the count starts at 0 (a biased count never reaches the closing decrement)", [a])
+    ctx.ob("floor|sender-count-inits", len(inits) >= 1, "expected >= 1 construction of channel::Inner (found %d)" % len(inits))
+    makers = []
+    for b in P.all_bodies():
+        if "::tests" in b.name or not b.name.startswith(("channel::", "<channel::")):
+            continue
+        for a in b.aggregates(adt="channel::Sender"):
+            adds = _field_sites(b, "fetch_add", "sender_count")
+            good = len(adds) == 1 and const_eval_set(b.origins(adds[0].args()[1], adds[0])) == 1 and not b.conditions(adds[0]) and not b.in_loop(adds[0])
+            makers.append(a)
+            ctx.ob("sender-count|new-sender-adds-one|%s" % b.name, good, "a function that builds a Sender adds exactly one to the sender count", [a] + adds)
+    ctx.ob("floor|sender-makers", len(makers) >= 2, "expected >= 2 functions that build a Sender (found %d)" % len(makers))
 
 
 def rule_c(ctx):
